@@ -19,10 +19,10 @@ RULE = ("stratified + seeded random (configuration, sample) pairs, parameters ov
         "extreme tuning parameter; distinct = hash of (configuration, sample)")
 REQUIRED = ["range_checked:fixed_alternative_mean", "range_checked:shrink_trunc", "range_checked:optimal_comparison",
             "range_checked:fixed_bet", "range_checked:agrapa", "strictly_above_mu_checked", "sign_entries_checked",
-            "one_step_extensions", "regime:fixed_alternative_impossible", "regime:margin_below_rate"]
+            "one_step_extensions", "regime:fixed_alternative_impossible", "regime:margin_below_rate", "regime:optimal_comparison_u_le_1"]
 ASSUMPTIONS = ["mu_j recomputed by an independent loop; 'mu_j < u' for the strict clause means mu_j < u(1-1e-6), the "
                "tolerance the tests themselves use for mu_j = u", "fixed_bet's lambda is the user's; lambda <= 1/u is "
-               "generated (the C01 quantifier)", "optimal_comparison only with u > 1 (comparison audits)"]
+               "generated (the C01 quantifier)", "optimal_comparison mostly with u > 1 (comparison audits), u <= 1 in 20 % of its cases"]
 N_CASES = {"quick": 40000, "thorough": 1200000}
 RANGE_COMBOS = [c for c in nn.COMBOS if c[1] or c[2]] + [("wald_sprt", None, None), ("kaplan_kolmogorov", None, None)]
 
@@ -89,9 +89,11 @@ def run_case(case, rec):
                     raw = nn.ref_mu(x, N, eta)
                     if any(r < 0 or r > u for r in raw):
                         rec.count("regime:fixed_alternative_impossible")
+                if name == "optimal_comparison" and u <= 1:
+                    rec.count("regime:optimal_comparison_u_le_1")
                 if name == "optimal_comparison":
                     p2 = cfg["kw"].get("rate_error_2", 1e-4)
-                    if (1 - u * (1 - p2)) / (2 - 2 * u) + u * (1 - p2) - 0.5 < 0:
+                    if u > 1 and (1 - u * (1 - p2)) / (2 - 2 * u) + u * (1 - p2) - 0.5 < 0:
                         rec.count("regime:margin_below_rate")
                 if len(e) != n:
                     rec.violation("c13.range", f"{name}:length", {"len": len(e), "n": n})
